@@ -155,7 +155,7 @@ def modelDiff (i : Input) (o : Output) : Option String :=
     | some e => some ("L" ++ toString e.1 ++ "=" ++ showPairs (statusAll i e.1))
     | none => none
 
-def answerT (pre post : List String) : String :=
+def answerTX (extra : List (String × Bool)) (extraWhy : List String) (tag : String) (pre post : List String) : String :=
   match pre with
   | [self, up, recs, filters] =>
     match (do
@@ -165,23 +165,55 @@ def answerT (pre post : List String) : String :=
     | none => "bad-case unparsable-input"
     | some (i, fs) =>
       if !wf i then "bad-case not-wf" else
-      if post == ["panic"] then "propfail no_panic " ++ arms i else
+      if post == ["panic"] then "propfail no_panic " ++ tag ++ arms i else
       match parseOutput post with
       | none => "bad-case unparsable-output"
       | some o =>
         if o.lists.map (·.1) != fs then "bad-case filters-mismatch"
         else if !fs.contains 0 then "bad-case no-filter-0"
         else
-          let failed := (clauses i o).filter (fun c => !c.2)
+          let failed := (clauses i o ++ extra).filter (fun c => !c.2)
           let md := modelDiff i o
           if !failed.isEmpty then
-            "propfail " ++ ",".intercalate (failed.map (·.1)) ++ " " ++ arms i ++
-              " why=" ++ ";".intercalate (why i o) ++ (if md.isSome then " modeldiff" else "")
+            "propfail " ++ ",".intercalate (failed.map (·.1)) ++ " " ++ tag ++ arms i ++
+              " why=" ++ ";".intercalate (why i o ++ extraWhy) ++ (if md.isSome then " modeldiff" else "")
           else
             match md with
-            | some m => "diff " ++ arms i ++ " model=" ++ m
-            | none => "ok " ++ arms i ++ (if i.recs.isEmpty || !i.ipfsUp then " trivial" else "")
+            | some m => "diff " ++ tag ++ arms i ++ " model=" ++ m
+            | none => "ok " ++ tag ++ arms i ++ (if i.recs.isEmpty || !i.ipfsUp then " trivial" else "")
   | _ => "bad-case arity"
+
+def answerT (pre post : List String) : String := answerTX [] [] "" pre post
+
+/-! ### the views through the RPC layer (`tp`, round 8b) -/
+
+def parseHopTok (acc : SpecH.Obs) (s : String) : Option SpecH.Obs :=
+  match s.splitOn "=" with
+  | [k, v] =>
+    if k == "S" then do pure { acc with each := ← parsePairs v }
+    else if k == "PS" then do pure { acc with pEach := ← parsePairs v }
+    else if k == "GS" then do pure { acc with gEach := ← parsePairs v }
+    else if k == "X" then do pure { acc with closed := ← bool01 v }
+    else if k.startsWith "PL" then do
+      pure { acc with pLists := acc.pLists ++ [(← ((k.drop 2).toString).toNat?, ← parsePairs v)] }
+    else if k.startsWith "GL" then do
+      pure { acc with gLists := acc.gLists ++ [(← ((k.drop 2).toString).toNat?, ← parsePairs v)] }
+    else if k.startsWith "L" then do
+      pure { acc with lists := acc.lists ++ [(← ((k.drop 1).toString).toNat?, ← parsePairs v)] }
+    else none
+  | _ => none
+
+def answerTP (pre post : List String) : String :=
+  if post == ["panic"] then answerTX [] [] "arm=rpc-hop " pre post else
+  match post.foldlM parseHopTok { each := [], lists := [], pEach := [], pLists := [], gEach := [], gLists := [], closed := false } with
+  | none => "bad-case unparsable-output"
+  | some h =>
+    let tPost := post.filter (fun s => s.startsWith "S=" || s.startsWith "L")
+    let cl := SpecH.clauses h
+    let hw := (cl.filter (fun c => !c.2)).map (fun c => c.1 ++ "@rpc")
+    let tag := "arm=rpc-hop " ++ (if h.gEach.isEmpty then "" else "arm=rpc-cluster-status ") ++
+      (if h.lists.any (fun e => e.1 != 0 && !e.2.isEmpty) then "arm=rpc-filtered-nonempty " else "")
+    answerTX cl hw tag pre tPost
 
 /-! ### tracker cases with failing resources (`tf`) -/
 
@@ -594,6 +626,7 @@ def answer (ws : List String) : String :=
     | none => "bad-case no-arrow"
     | some (pre, post) =>
       if kind == "t" then answerT pre post
+      else if kind == "tp" then answerTP pre post
       else if kind == "gc" then answerGc pre post
       else if kind == "gs" then answerGs pre post
       else if kind == "tf" then answerTF pre post
